@@ -11,7 +11,7 @@ from vf import hist
 
 
 def run_shape(start, mode, direction, dp, desc, ratio=None, res=None,
-              pre=None, labels=None, rehearse=None, hooked=False):
+              pre=None, labels=None, rehearse=None, hooked=False, mirror=False):
     """Execute one tracer request on a fresh builder.
 
     start: (x, y, z) set exactly with set_axis (G92) or None (unknown position)
@@ -24,6 +24,13 @@ def run_shape(start, mode, direction, dp, desc, ratio=None, res=None,
         g.add_hook(lambda origin, target, params, state: params)
     if start is not None:
         g.set_axis(x=start[0], y=start[1], z=start[2])
+    mirror = bool(mirror) and start is not None
+    if mirror:
+        # a mirror transform (x -> -x) is active while tracing: the machine is
+        # first brought to the image of the start; the emitted vertices are
+        # mapped back before they are judged, so the same path is expected
+        g.transform.mirror("yz")
+        g.move(x=start[0], y=start[1], z=start[2])
     g.set_distance_mode(mode)
     g.set_direction(direction)
     if pre is not None:
@@ -65,7 +72,11 @@ def run_shape(start, mode, direction, dp, desc, ratio=None, res=None,
     except Exception as e:
         exc = e
     lines = s.poll()
-    verts = vertices(lines, start_abs, mode == "relative")
+    if mirror:
+        verts = vertices(lines, (-start_abs[0], start_abs[1], start_abs[2]), mode == "relative")
+        verts = [(-v[0], v[1], v[2]) for v in verts]
+    else:
+        verts = vertices(lines, start_abs, mode == "relative")
     return {"s": s, "info": info, "verts": verts, "res": float(res), "lines": lines,
             "exc": exc, "start": start_abs, "L": L, "call": (method, args)}
 
